@@ -16,6 +16,7 @@
 #include <signal.h>
 #include <sys/mman.h>
 #include <sys/stat.h>
+#include <dirent.h>
 #if defined(__has_feature)
 #if __has_feature(address_sanitizer)
 #define VERIF_HAVE_LSAN 1
@@ -369,7 +370,7 @@ static int usage() {
 }
 
 int main(int argc, char** argv) {
-    std::string mode, file, out, known, work = ".";
+    std::string mode, file, out, known, corpus, work = ".";
     uint64_t seed = 1, cases = 1000, worker = 0, workers = 1, max_seconds = 0, wlo = 0, whi = ~0ULL;
     size_t maxlen = 0;
     int tier = 0;
@@ -394,6 +395,7 @@ int main(int argc, char** argv) {
         else if (a == "--maxlen") maxlen = strtoull(next().c_str(), nullptr, 10);
         else if (a == "--tier") tier = next() == "thorough" ? 1 : 0;
         else if (a == "--known") known = next();
+        else if (a == "--corpus") corpus = next();
         else if (a == "--work") work = next();
         else return usage();
     }
@@ -514,6 +516,19 @@ int main(int argc, char** argv) {
     } else {
         Rng rng(seed * 0x100000001b3ULL + worker * 0x9e3779b97f4a7c15ULL + 12345);
         std::vector<std::vector<uint8_t>> pool;
+        if (!corpus.empty()) {
+            // committed seed inputs start the mutation pool (sorted by name: deterministic)
+            std::vector<std::string> names;
+            if (DIR* d = opendir(corpus.c_str())) {
+                while (dirent* de = readdir(d)) if (de->d_name[0] != '.') names.push_back(de->d_name);
+                closedir(d);
+            }
+            std::sort(names.begin(), names.end());
+            for (auto& nm : names) {
+                std::vector<uint8_t> b;
+                if (read_file(corpus + "/" + nm, b) && b.size() <= maxlen) pool.push_back(b);
+            }
+        }
         std::vector<uint8_t> v;
         std::vector<std::vector<uint8_t>> window;
         double last_leak_check = 0;
@@ -529,7 +544,7 @@ int main(int argc, char** argv) {
                 size_t dc = ctx.distinct();
                 if (dc != distinct_before) {
                     distinct_before = dc;
-                    if (pool.size() < 512) pool.push_back(v);
+                    if (pool.size() < 1024) pool.push_back(v);
                     else pool[rng.below(pool.size())] = v;
                 }
             }
